@@ -309,7 +309,7 @@ func (d *dmDirect) process(sc *dmScenario) bool {
 				d.sum.Count("direct:usererror:" + r.V.GoType)
 			}
 			if d.debug && (cls == "external" || cls == "internal" || cls == "crash" || (cls == "user" && os.Getenv("C01_DEBUG") == "2")) {
-				fmt.Fprintf(os.Stderr, "---- OUTCOME %s engine=%s step %d\n%s\n%s\n", cls, dmEngineName(x.vm), i, sc.Steps[i].Code, dmTrimTo(r.Err, 1200))
+				fmt.Fprintf(os.Stderr, "---- OUTCOME %s engine=%s step %d detail=%s\n%s\n%s\n", cls, dmEngineName(x.vm), i, r.V.Detail(), sc.Steps[i].Code, dmTrimTo(r.Err, 1200))
 			}
 		}
 	}
